@@ -53,8 +53,8 @@ C12Scn ==
 (* =================================================================== C10 *)
 (* Universe = <<".", "d", "d/f", "f", "l", "s", "x", "x/f", "y">>: every entry type in every *)
 (* update situation, all option subsets, with and without -n                *)
-C10Src == With(With(With(With(With(EmptyFs, "d", Dir(493)), "d/f", Reg(1, 20, 1000, 0, 420)),
-               "f", Reg(2, 30, 1000, 0, 420)), "l", Lnk("f")), "s", Spc("fifo", 420))
+C10Src == With(With(With(With(With(With(EmptyFs, "d", Dir(493)), "d/f", Reg(1, 20, 1000, 0, 420)),
+               "f", Reg(2, 30, 1000, 0, 420)), "l", Lnk("f")), "s", Spc("fifo", 420)), "dev", Spc("chr", 432))
 Situations(p) ==
   LET src == C10Src[p] IN
   CASE src.t = "reg" -> {Absent, src, Reg(9, src.sz, src.mt, 0, 384), Reg(9, src.sz + 1, 999, 0, 384), Lnk("x"), Spc("fifo", 420)}
@@ -72,9 +72,9 @@ C10Dst(p, sit) ==
 C10SrcRo == With(C10Src, "d", Dir(365))
 C10Scn ==
   { Scn(C10Dst(p, sit), ListOf(src), O(TRUE, l, pp, t, D, c, FALSE, n, del), 0, {}) : src \in {C10Src, C10SrcRo},
-      p \in {"d", "d/f", "f", "l", "s"} , sit \in UNION {Situations(q) : q \in {"d", "d/f", "f", "l", "s"}},
+      p \in {"d", "d/f", "f", "l", "s", "dev"} , sit \in UNION {Situations(q) : q \in {"d", "d/f", "f", "l", "s", "dev"}},
       l \in BOOLEAN, pp \in BOOLEAN, t \in BOOLEAN, D \in BOOLEAN, c \in BOOLEAN, n \in BOOLEAN, del \in BOOLEAN }
-C10Valid(s) == \E p \in {"d", "d/f", "f", "l", "s"} : \E sit \in Situations(p) : s.fs0 = C10Dst(p, sit)
+C10Valid(s) == \E p \in {"d", "d/f", "f", "l", "s", "dev"} : \E sit \in Situations(p) : s.fs0 = C10Dst(p, sit)
 
 (* =================================================================== C09 *)
 (* Universe = <<".", "a", "ab", "b", "c", "d", "d/a", "d/b", "e", "e/a">> ("a" is a  *)
@@ -117,7 +117,7 @@ C11Src(fp, dp, mt) ==
        "dev", Spc("chr", fp)), "f", Reg(2, 30, mt, 0, fp)), "k", Spc("fifo", fp)), "l", Lnk("d/f")), "ro", Dir(365)), "ro/f", Reg(3, 9, mt, 0, 292))
 C11SrcX(fp, dp, mt) ==     \* an EMPTY file and a file whose old copy is empty; owners and groups other than the receiving user's
   LET x == With(With(C11Src(fp, dp, mt), "e", Reg(5, 0, mt, 0, fp)), "g", Reg(6, 12, mt, 0, fp))
-  IN With(With(With(With(x, "f", Own(x["f"], 1234, 4321)), "d", Own(x["d"], 1234, 0)), "d/f", Own(x["d/f"], 0, 4321)), "l", Own(x["l"], 1234, 4321))
+  IN With(With(With(With(With(x, "z", Dir(493)), "f", Own(x["f"], 1234, 4321)), "d", Own(x["d"], 1234, 0)), "d/f", Own(x["d/f"], 0, 4321)), "l", Own(x["l"], 1234, 4321))     \* "z": a writable directory listed AFTER the read-only "ro"
 C11Prior(kind, mt) ==
   IF kind = "absent" THEN EmptyFs
   ELSE With(With(With(With(With(With(With(EmptyFs, "d", Dir(448)), "d/f", Reg(1, 20, mt - 1, 600000000, 384)),   \* same content, other perm, mtime 0.4 s before the source's
@@ -130,11 +130,11 @@ C11Scn ==
 (* =================================================================== C13 *)
 (* Universe = <<".", "a", "b", "c", "d", "d/a", "d/b", "d/e", "d/e/a">>: the same *)
 (* names at several depths, files and directories, every sort position       *)
-C13Src == With(With(With(With(With(With(With(With(With(EmptyFs, "ba", Reg(7, 17, 1000, 0, 420)), "a", Reg(1, 11, 1000, 0, 420)), "b", Reg(2, 12, 1000, 0, 420)), "c", Reg(3, 13, 1000, 0, 420)),
+C13Src == With(With(With(With(With(With(With(With(With(With(EmptyFs, "_b", Reg(8, 18, 1000, 0, 420)), "ba", Reg(7, 17, 1000, 0, 420)), "a", Reg(1, 11, 1000, 0, 420)), "b", Reg(2, 12, 1000, 0, 420)), "c", Reg(3, 13, 1000, 0, 420)),
           "d", Dir(493)), "d/a", Reg(4, 14, 1000, 0, 420)), "d/b", Reg(5, 15, 1000, 0, 420)), "d/e", Dir(493)), "d/e/a", Reg(6, 16, 1000, 0, 420))
 (* dir = TRUE: the rule is spelled with a trailing slash ("d/": directories named d); used only for names that *)
 (* are directories wherever they occur in this universe, so that it selects the same entries as the plain name *)
-C13RulePool == [inc : BOOLEAN, pat : {"a", "b", "d", "e"}, dir : {FALSE}] \cup [inc : BOOLEAN, pat : {"d", "e"}, dir : {TRUE}]
+C13RulePool == [inc : BOOLEAN, pat : {"a", "b", "d", "e", "_b"}, dir : {FALSE}] \cup [inc : BOOLEAN, pat : {"d", "e"}, dir : {TRUE}]
 CONSTANT MaxRules
 C13Rules == UNION {[1..k -> C13RulePool] : k \in 0..MaxRules}
 C13Scn == { E2E(C13Src, EmptyFs, OX(TRUE, FALSE, FALSE, TRUE, FALSE, FALSE, FALSE, FALSE, FALSE, FALSE), rs) : rs \in C13Rules }
